@@ -183,6 +183,11 @@ def check_case(c, o, stats):
     pos, d = o["start"]["pos"], o["start"]["dir"]
     uniform = c["fk"] in (0, 1)
     opts = c["opts"]
+    # ZHelixStepper is only meaningful on-axis with positive helicity (F-C08-1)
+    zh_bad = c["sk"] == 2 and not c["onaxis"]
+    # accurate_advance floors its trial steps at minimum_step whatever the error:
+    # with a gyroradius comparable to minimum_step the integration is uncontrolled
+    controlled = c["rad"] > 10 * opts[0]
     for k, (step, r) in enumerate(zip(c["steps"], o["calls"])):
         if not (r["dist"] > 0 and r["dist"] <= step * (1 + 1e-9)):
             return ("distance", "call %d: distance %r not in (0, step=%r]" % (k, r["dist"], step))
@@ -204,7 +209,9 @@ def check_case(c, o, stats):
         # within delta_intersection (+ minimum step: chords shorter than that are
         # not tested against the geometry, FieldPropagator.hh l.196-206) of a
         # surface the logical volume may lag the position: documented caveat
-        if not r["onb"] and r["fresh"] != r["vol"] and r["fsafety"] <= 2 * (opts[2] + opts[0]):
+        if zh_bad:
+            pass
+        elif not r["onb"] and r["fresh"] != r["vol"] and r["fsafety"] <= 2 * (opts[2] + opts[0]):
             stats["volume_lag_within_tolerance"] = stats.get("volume_lag_within_tolerance", 0) + 1
         elif not r["onb"] and r["fresh"] != r["vol"] and c["fk"] != 2 and c["rad"] <= 4 * opts[0]:
             # gyroradius below the minimum step: chords shorter than minimum_step are
@@ -214,7 +221,9 @@ def check_case(c, o, stats):
         elif not r["onb"] and r["fresh"] != r["vol"]:
             return ("volume", "call %d: navigator says volume %d, fresh point location says %d at %r" % (
                 k, r["vol"], r["fresh"], r["pos"]))
-        if uniform and (c["sk"] != 2 or c["onaxis"]):
+        if uniform and not zh_bad and not controlled:
+            stats["uncontrolled_regime_skipped"] = stats.get("uncontrolled_regime_skipped", 0) + 1
+        elif uniform and not zh_bad:
             hp, hd = helix(pos, d, c["b"], o["coeffi"], o["pmag"], r["dist"])
             perr = norm([a - b for a, b in zip(hp, r["pos"])])
             derr = norm([a - b for a, b in zip(hd, r["dir"])])
@@ -248,15 +257,7 @@ def check_case(c, o, stats):
     return None
 
 
-def run(ctx, exe, PRE):
-    quick = ctx.tier == "quick"
-    r = ctx.rng
-    found = False
-    geodir = os.path.join(REPO, "test", "geocel", "data")
-    fmap = os.path.join(REPO, "test", "celeritas", "data", "cms-tiny.field.json")
-
-    # ---- ZHelixStepper differential -----------------------------------------
-    nh = 300 if quick else 5000
+def gen_helix_cases(r, nh):
     hcases = []
     for _ in range(nh):
         q = r.choice([-1, 1])
@@ -267,12 +268,54 @@ def run(ctx, exe, PRE):
         rad = pm / (COEFF * abs(bz))
         step = rad * r.choice([1e-6, 1e-3, 0.1, 1.0, 3.0, 10 ** r.uniform(-3, 1)])
         hcases.append((q, bz, step, pos + mom))
-    inp = "\n".join("H %d %s %s %s" % (q, hx(bz), hx(s), " ".join(hx(x) for x in st)) for q, bz, s, st in hcases) + "\n"
-    rc, out = ctx.run_harness(exe, [geodir, fmap], input=inp)
+    return hcases
+
+
+def start(ctx, exe):
+    """generate the cases (own PRNG stream, so the order of the other parts
+    does not matter) and run the harness in a background thread"""
+    import random, threading
+    quick = ctx.tier == "quick"
+    r = random.Random(ctx.seed * 7919 + 8)
+    job = {"exe": exe}
+    job["geodir"] = os.path.join(REPO, "test", "geocel", "data")
+    job["fmap"] = os.path.join(REPO, "test", "celeritas", "data", "cms-tiny.field.json")
+    job["hcases"] = gen_helix_cases(r, 300 if quick else 5000)
+    ne = int(os.environ.get("C08_E2E_N", "0")) or (3000 if quick else 20000)   # override: ad-hoc experiments
+    job["cases"] = [gen_case(r, COEFF) for _ in range(ne)]
+
+    def work():
+        try:
+            inp = "\n".join("H %d %s %s %s" % (q, hx(bz), hx(s), " ".join(hx(x) for x in st))
+                            for q, bz, s, st in job["hcases"]) + "\n"
+            job["hout"] = ctx.run_harness(exe, [job["geodir"], job["fmap"]], input=inp)
+            job["eout"] = ctx.run_harness(exe, [job["geodir"], job["fmap"]],
+                                          input="\n".join(case_line(c) for c in job["cases"]) + "\n", timeout=2400)
+        except Exception as ex:
+            job["error"] = ex
+    job["thread"] = threading.Thread(target=work)
+    job["thread"].start()
+    return job
+
+
+def finish(ctx, job, PRE):
+    job["thread"].join()
+    if "error" in job:
+        raise job["error"]
+    found = False
+    exe, geodir, fmap = job["exe"], job["geodir"], job["fmap"]
+
+    # ---- ZHelixStepper differential -----------------------------------------
+    hcases = job["hcases"]
+    nh = len(hcases)
+    rc, out = job["hout"]
     lines = out.strip().splitlines()
     if rc != 0 or len(lines) != nh:
         raise vlib.BuildError("helix harness failed rc=%d" % rc, out[-2000:])
     coeff = abs(fh(lines[0].split()[1]))
+    if coeff != COEFF:
+        ctx.violation("tie-broken", "Lorentz coefficient of MagFieldEquation changed: %r (expected %r)" % (coeff, COEFF),
+                      {"coeffi": coeff}, no_input=True)
     exprs = ["run_helix %s %s %s [%s]" % (hexf(q * coeff), hexf(bz), hexf(s), "; ".join(hexf(x) for x in st))
              for q, bz, s, st in hcases]
     mv = ctx.coq_eval("helix", PRE, exprs, chunk=max(25, -(-nh // 8)))
@@ -302,9 +345,9 @@ def run(ctx, exe, PRE):
             break
 
     # ---- end-to-end ---------------------------------------------------------
-    ne = 500 if quick else 20000
-    cases = [gen_case(r, coeff) for _ in range(ne)]
-    rc, out = ctx.run_harness(exe, [geodir, fmap], input="\n".join(case_line(c) for c in cases) + "\n", timeout=1500)
+    cases = job["cases"]
+    ne = len(cases)
+    rc, out = job["eout"]
     lines = [l for l in out.strip().splitlines() if l.startswith("E ")]
     if rc != 0 or len(lines) != ne:
         raise vlib.BuildError("end-to-end harness failed rc=%d (%d/%d lines)" % (rc, len(lines), ne), out[-2000:])
